@@ -414,15 +414,43 @@ def r_log_lockstep(ctx: RuleCtx, col: Collector):
                     norm(n.value.func) == "zip" and len(n.value.args) == 1 and isinstance(n.value.args[0], ast.Starred):
                 tags, dat = [e.id for e in n.targets[0].elts]
                 paired = True
+    pair_list = None
+    if tags is None or dat is None:
+        # ... or kept together as one list of (name, value) pairs, from which header and row are projected:
+        #     sep.join(n for n, _ in cols)  /  sep.join(v for _, v in cols)
+        cands = {}
+        for n in ast.walk(f.node):
+            if isinstance(n, (ast.GeneratorExp, ast.ListComp)) and len(n.generators) == 1 and isinstance(n.generators[0].iter, ast.Name) \
+                    and isinstance(n.generators[0].target, ast.Tuple) and len(n.generators[0].target.elts) == 2 and isinstance(n.elt, ast.Name):
+                names_ = [norm(e) for e in n.generators[0].target.elts]
+                if n.elt.id in names_:
+                    cands.setdefault(n.generators[0].iter.id, {})[names_.index(n.elt.id)] = n
+        for lst, comps in cands.items():
+            appended = [x for x in ast.walk(f.node) if isinstance(x, ast.Call) and isinstance(x.func, ast.Attribute) and x.func.attr == "append"
+                        and norm(x.func.value) == lst]
+            inits = [x.value for x in ast.walk(f.node) if isinstance(x, ast.Assign) and norm(x.targets[0]) == lst]
+            pairs_only = all(len(x.args) == 1 and isinstance(x.args[0], ast.Tuple) and len(x.args[0].elts) == 2 for x in appended) and \
+                all(isinstance(i_, ast.List) and all(isinstance(e, ast.Tuple) and len(e.elts) == 2 for e in i_.elts) for i_ in inits)
+            if set(comps) == {0, 1} and appended and inits and pairs_only:
+                pair_list = lst
+                tags, dat = f"<{lst}:names>", f"<{lst}:values>"
+                paired = True
+                proj = {id(comps[0]): tags, id(comps[1]): dat}
     if tags is None or dat is None:
         raise AnalysisError("ScalarToFile._response: header / row lists not recognised")
+
+    def mentions(e: ast.AST, role: str) -> bool:
+        """does the expression use the header names (role = tags) / the row values (role = dat)?"""
+        if pair_list is not None:
+            return any(proj.get(id(y)) == role for y in ast.walk(e))
+        return any(isinstance(y, ast.Name) and y.id == role for y in ast.walk(e))
     from .common import expand_names
     first_forms = (f"{selfn}.iter==0", f"0=={selfn}.iter", f"not{selfn}.iter!=0", f"not({selfn}.iter!=0)", f"notnot{selfn}.iter==0")
     if paired:
         from .common import dominating_tests
         hw = [nd for nd in cfg.simple_nodes() if nd.kind == STMT and nd.ast is not None and any(
             isinstance(x, ast.Call) and isinstance(x.func, ast.Attribute) and x.func.attr == "write" and
-            any(isinstance(y, ast.Name) and y.id == tags for a_ in x.args for y in ast.walk(a_)) for x in ast.walk(nd.ast))]
+            any(mentions(a_, tags) for a_ in x.args) for x in ast.walk(nd.ast))]
         if not hw:
             raise AnalysisError("ScalarToFile._response: header write not recognised")
         for nd in hw:
@@ -502,8 +530,8 @@ def r_log_lockstep(ctx: RuleCtx, col: Collector):
                 if isinstance(c, ast.Call) and isinstance(c.func, ast.Name) and c.func.id == "open" and len(c.args) >= 2 and \
                         isinstance(c.args[1], ast.Constant):
                     mode = c.args[1].value
-                    writes_header = any(isinstance(x, ast.Name) and x.id == tags for b in w.body for x in ast.walk(b))
-                    writes_row = any(isinstance(x, ast.Name) and x.id == dat for b in w.body for x in ast.walk(b))
+                    writes_header = any(mentions(b, tags) for b in w.body)
+                    writes_row = any(mentions(b, dat) for b in w.body)
                     if writes_header:
                         if mode.startswith("w"):
                             col.ok(where_of(f), f.rel, line_of(w), "header written to a truncated file", f"mode '{mode}'")
@@ -525,7 +553,7 @@ def r_log_lockstep(ctx: RuleCtx, col: Collector):
         if nd.kind == STMT and a is not None:
             for x in ast.walk(a):
                 if isinstance(x, ast.Call) and isinstance(x.func, ast.Attribute) and x.func.attr == "write" and x.args and \
-                        any(isinstance(y, ast.Name) and y.id == dat for y in ast.walk(x.args[0])):
+                        mentions(x.args[0], dat):
                     rowwrites.append(nd)
             if isinstance(a, ast.AugAssign) and norm(a.target) == f"{selfn}.iter" and isinstance(a.op, ast.Add):
                 incs.append(nd)
